@@ -86,7 +86,7 @@ def _num_token(rng):
 
 
 STR_TOKENS = ["png", "pdf", "xz", "dotted", "viridis", "none-ish", "serif", "best", "cm", "my style", "szyx",
-              "path/to/x", "-.", "tab10"]
+              "path/to/x", "-.", "tab10", "G\u00e9oportail.Plan", "Noto Sans CJK \u65e5\u672c\u8a9e", "stra\u00dfe \u2713"]
 
 
 def gen_set_tokens(rng, cfg):
